@@ -275,7 +275,6 @@ func (r *renderState) postBlock(source []byte, cursor *Cursor) bool {
 }
 
 func (r *renderState) preInline(source []byte, inline *Inline) bool {
-	const hardLineBreak = "<br>\n"
 	switch inline.Kind() {
 	case TextKind, UnparsedKind:
 		r.dst = escapeHTML(r.dst, spanSlice(source, inline.Span()))
@@ -295,7 +294,8 @@ func (r *renderState) preInline(source []byte, inline *Inline) bool {
 	case SoftLineBreakKind:
 		switch r.SoftBreakBehavior {
 		case SoftBreakHarden:
-			r.dst = append(r.dst, hardLineBreak...)
+			r.openTag(atom.Br)
+			r.dst = append(r.dst, '\n')
 		case SoftBreakSpace:
 			r.dst = append(r.dst, ' ')
 		default:
@@ -307,7 +307,8 @@ func (r *renderState) preInline(source []byte, inline *Inline) bool {
 		}
 		return false
 	case HardLineBreakKind:
-		r.dst = append(r.dst, hardLineBreak...)
+		r.openTag(atom.Br)
+		r.dst = append(r.dst, '\n')
 		return false
 	case EmphasisKind:
 		r.openTag(atom.Em)
@@ -409,57 +410,66 @@ func (r *renderState) filterRaw(rawHTML []byte) {
 	const (
 		copyState = iota
 		commentState
-		piState
 		declState
-		cdataState
 	)
 	state := copyState
 	copyStart := 0
 	for i := 0; i < len(rawHTML); {
 		switch state {
 		case copyState:
-			if rawHTML[i] == '<' {
+			if rawHTML[i] != '<' {
+				i++
+				continue
+			}
+			switch {
+			case hasBytePrefix(rawHTML[i:], htmlCommentPrefix):
+				i += len(htmlCommentPrefix)
 				switch {
-				case hasBytePrefix(rawHTML[i:], cdataPrefix):
-					state = cdataState
-					i += len(cdataPrefix)
-				case hasBytePrefix(rawHTML[i:], htmlCommentPrefix):
-					state = commentState
-					i += len(htmlCommentPrefix)
-				case hasHTMLDeclarationPrefix(rawHTML[i:]):
-					state = declState
-					i += len("<!x")
+				case hasBytePrefix(rawHTML[i:], ">"):
+					// "<!-->" is a complete comment to an HTML tokenizer.
+					i += len(">")
+				case hasBytePrefix(rawHTML[i:], "->"):
+					// So is "<!--->".
+					i += len("->")
 				default:
-					tagNameStart := i + 1
-					tagEnd := len(rawHTML)
-					if j := bytes.IndexByte(rawHTML[tagNameStart:], '>'); j >= 0 {
-						tagEnd = tagNameStart + j + len(">")
-					}
-					tagNameEnd := tagNameStart + htmlTagNameEnd(rawHTML[tagNameStart:tagEnd])
-					tagName := maybeLower(rawHTML[tagNameStart:tagNameEnd], &r.lowerBuf)
-					if r.FilterTag(tagName) {
-						r.dst = append(r.dst, rawHTML[copyStart:i]...)
-						r.dst = append(r.dst, "&lt;"...)
-						r.dst = append(r.dst, rawHTML[tagNameStart:tagEnd]...)
-						copyStart = tagEnd
-					}
+					state = commentState
+				}
+			case hasBytePrefix(rawHTML[i:], "<!") || hasBytePrefix(rawHTML[i:], processingInstructionPrefix):
+				// To an HTML tokenizer, declarations, CDATA sections, and processing instructions
+				// are all comments that end at the next '>'.
+				state = declState
+				i += len("<!")
+			case i+1 < len(rawHTML) && (isASCIILetter(rawHTML[i+1]) || rawHTML[i+1] == '/'):
+				tagNameStart := i + 1
+				tagEnd := len(rawHTML)
+				if j := bytes.IndexByte(rawHTML[tagNameStart:], '>'); j >= 0 {
+					tagEnd = tagNameStart + j + len(">")
+				}
+				tagNameEnd := tagNameStart + htmlTagNameEnd(rawHTML[tagNameStart:tagEnd])
+				tagName := maybeLower(rawHTML[tagNameStart:tagNameEnd], &r.lowerBuf)
+				if r.FilterTag(tagName) {
+					// With its '<' escaped, the rest of the tag becomes text,
+					// so keep scanning it: it may contain another '<'.
+					r.dst = append(r.dst, rawHTML[copyStart:i]...)
+					r.dst = append(r.dst, "&lt;"...)
+					copyStart = tagNameStart
+					i = tagNameStart
+				} else {
 					i = tagEnd
 				}
-			} else {
+			default:
+				// A '<' that does not start a tag is text.
 				i++
 			}
 		case commentState:
-			if hasBytePrefix(rawHTML[i:], htmlCommentSuffix) {
+			switch {
+			case hasBytePrefix(rawHTML[i:], htmlCommentSuffix):
 				state = copyState
 				i += len(htmlCommentSuffix)
-			} else {
-				i++
-			}
-		case piState:
-			if hasBytePrefix(rawHTML[i:], processingInstructionSuffix) {
+			case hasBytePrefix(rawHTML[i:], "--!>"):
 				state = copyState
-				i += len(processingInstructionSuffix)
-			} else {
+				i += len("--!>")
+			default:
 				i++
 			}
 		case declState:
@@ -467,13 +477,6 @@ func (r *renderState) filterRaw(rawHTML []byte) {
 				state = copyState
 			}
 			i++
-		case cdataState:
-			if hasBytePrefix(rawHTML[i:], cdataSuffix) {
-				state = copyState
-				i += len(cdataSuffix)
-			} else {
-				i++
-			}
 		default:
 			panic("unreachable")
 		}
